@@ -1142,6 +1142,12 @@ def np_sum(eng, st, args, kw, node):
     if ndim_of(eng, st, v) == 2:
         ref = v if isinstance(v, Ref) else materialise(eng, st, as_mat(eng, st, v))
         o = st.heap[ref.oid]
+        if o.esort != REAL:
+            # a boolean / integer matrix is summed as numbers (True = 1): the real-valued copy carries the same values
+            m_ = as_mat(eng, st, ref)
+            conv = Mat(m_.shape, lambda x, y, m_=m_: to_z3(m_.fn(x, y), REAL), REAL)
+            ref = materialise(eng, st, conv)
+            o = st.heap[ref.oid]
         t, n0, n1 = eng.pure(o.term), o.shape[0], o.shape[1]
         if axis is None:
             return core.tsum(t, to_z3(n0, INT))
